@@ -126,6 +126,13 @@ class C09(Monitor):
             ctx.count("c09_multi_instruction_batches")
 
     def _precedence(self, ctx, b):
+        # "generated last" is meant in the configured order of the generators: they must be asked in that order, every step
+        called = [name for name, t, ins, sim in ctx.gen_log]
+        want = list(getattr(ctx, "gen_names", called))
+        if called != want:
+            ctx.violate("C09", "generators-asked-out-of-configured-order", f"step {ctx.k}: generators were asked in the order {called}, configured order is {want}")
+        elif len(want) > 1:
+            ctx.count("c09_generator_order_checks")
         log: List[Tuple[str, Any]] = []
         for name, t, ins, sim in ctx.gen_log:
             for i in ins:
